@@ -4,6 +4,7 @@ import (
 	"context"
 	"fmt"
 	"net/url"
+	"strings"
 	"sync"
 	"time"
 
@@ -115,6 +116,21 @@ func (p *VipnodePool) NumRemotes() int {
 	return len(p.remoteHosts)
 }
 
+// canonicalNodeID returns the one spelling under which a node is known to the
+// pool. The signature check reads a node ID as a hex number: upper-case
+// digits and a 0x prefix name the same key, but it is one node with one nonce
+// sequence, one record and one balance.
+func canonicalNodeID(nodeID string) string {
+	id := nodeID
+	if strings.HasPrefix(id, "0x") || strings.HasPrefix(id, "0X") {
+		id = id[2:]
+	}
+	if !isNodeID(id) {
+		return nodeID
+	}
+	return strings.ToLower(id)
+}
+
 func (p *VipnodePool) verify(sig string, method string, nodeID string, nonce int64, args ...interface{}) error {
 	// TODO: Switch nonce to strictly timestamp within X time
 	// TODO: Switch NodeID to pubkey?
@@ -124,7 +140,7 @@ func (p *VipnodePool) verify(sig string, method string, nodeID string, nonce int
 
 	// We check and save the nonce only after the verify passed, this allows us
 	// to check twice for backwards compatibility.
-	if err := p.Store.CheckAndSaveNonce(nodeID, nonce); err != nil {
+	if err := p.Store.CheckAndSaveNonce(canonicalNodeID(nodeID), nonce); err != nil {
 		return VerifyFailedError{Cause: err, Method: method}
 	}
 	return nil
@@ -184,6 +200,7 @@ func (p *VipnodePool) Update(ctx context.Context, sig string, nodeID string, non
 		// the rest of the request, anybody could have added or changed it.
 		req.PeerInfo = nil
 	}
+	nodeID = canonicalNodeID(nodeID)
 
 	// Updates of one node must not overlap: both would bill the time since the
 	// same previous update.
@@ -293,6 +310,7 @@ func (p *VipnodePool) Host(ctx context.Context, sig string, nodeID string, nonce
 	if err := p.verify(sig, "vipnode_host", nodeID, nonce, req); err != nil {
 		return nil, err
 	}
+	nodeID = canonicalNodeID(nodeID)
 
 	connectReq := ConnectRequest{
 		NodeInfo: ethnode.UserAgent{
@@ -320,6 +338,7 @@ func (p *VipnodePool) Client(ctx context.Context, sig string, nodeID string, non
 	if err := p.verify(sig, "vipnode_client", nodeID, nonce, req); err != nil {
 		return nil, err
 	}
+	nodeID = canonicalNodeID(nodeID)
 	connectReq := ConnectRequest{
 		NodeInfo: ethnode.UserAgent{
 			Kind:       ethnode.ParseNodeKind(req.Kind),
@@ -356,6 +375,7 @@ func (p *VipnodePool) Connect(ctx context.Context, sig string, nodeID string, no
 	if err := p.verify(sig, "vipnode_connect", nodeID, nonce, req); err != nil {
 		return nil, err
 	}
+	nodeID = canonicalNodeID(nodeID)
 
 	return p.connect(ctx, nodeID, req)
 }
@@ -469,6 +489,7 @@ func (p *VipnodePool) Peer(ctx context.Context, sig string, nodeID string, nonce
 	if err := p.verify(sig, "vipnode_peer", nodeID, nonce, req); err != nil {
 		return nil, err
 	}
+	nodeID = canonicalNodeID(nodeID)
 
 	// TODO: Should we use protocol capability (eth, les, pip) instead of Kind?
 	// It's hard to get self-reported protocol capability versions though (les/2 vs just les).
